@@ -81,7 +81,7 @@ func (m *c10Mon) batch(p *Play, e *h.Ev, phase string, allowed map[string][]stri
 		targets = append(targets, target{h.PidOf(t, gp), "participant"})
 	}
 	for _, ps := range t.State.PlayerStates {
-		if t.FindGamePlayerIdx(ps.PlayerID) < 0 {
+		if h.GameIdx(t, ps.PlayerID) < 0 {
 			targets = append(targets, target{ps.PlayerID, "not-dealt-in"})
 			break
 		}
